@@ -251,7 +251,12 @@ def make_case(rng, solver, nmax=8, long_run=False, nmin=1):
             ev = np.linalg.eigvalsh(A)
             if ev[0] <= 0 or ev[-1] / ev[0] > 100:
                 continue
-            M, mfam = (None, 'none') if rng.random() < 0.5 else (np.diag(rng.choice([1.0, 2.0], size=n)).astype(A.dtype), 'diag')
+            if rng.random() < 0.5:
+                M, mfam = None, 'none'
+            elif solver == 'minimal_residual':     # <M A z, z> must stay positive for 50 steps: M = c I
+                M, mfam = (2.0 * np.eye(n)).astype(A.dtype), 'scalar'
+            else:
+                M, mfam = np.diag(rng.choice([1.0, 2.0], size=n)).astype(A.dtype), 'diag'
             if 30 <= keff(solver, A, M) <= 100:
                 break
             continue
@@ -279,6 +284,14 @@ def make_case(rng, solver, nmax=8, long_run=False, nmin=1):
     elif xk == 'zerob':
         b = np.zeros(n, dtype=A.dtype)
         x0 = _rint(rng, n, -3, 3, cplx)
+    if long_run:
+        # start with equal residual components in the extreme eigenvectors of the (symmetrically) preconditioned
+        # operator -- the classical slow zig-zag of line-search methods -- so that 50 steps do not reach rounding level
+        Mh = np.eye(n) if M is None else np.sqrt(np.real(np.diag(M)))[:, None] * np.eye(n)
+        lam, U = np.linalg.eigh(Mh @ A @ Mh)
+        r0 = np.linalg.solve(Mh, U[:, 0] + U[:, -1])
+        x0 = _dy(xs - np.linalg.solve(A, r0) * 4.0, 10)
+        xk = 'zigzag'
     if x0 is not None:
         x0 = x0.astype(A.dtype)
     K = n if (rng.random() < 0.6 or nmin > 1) else int(rng.integers(1, n + 1))
